@@ -1,6 +1,11 @@
 """C04 Soundness: proofs of false statements are rejected (structural part).
 
 R04a frozen check inventory of every offered verifier (guard domination over fingerprints),
+R04c challenge discipline of the interactive verifiers: each random challenge is sent only after
+     the commitments it challenges were received (per function a frozen, read-confirmed list says
+     which challenges have a preceding commitment -- some protocols open with a verifier move),
+     it is drawn afresh in the round it is sent in, and the number of rounds is the verifier's own
+     parameter, never a value from the peer,
 R04d whole-object comparison operators, R04e no verification verdict is dropped."""
 from . import invcheck, verifiers
 from ..facts import walk
@@ -17,6 +22,7 @@ def run(ctx):
     ctx.floor('R04a', n, 250)
     ctx.info['verifiers_checked'] = nfun
     ctx.info['latent_unreachable'] = sorted(set(f['q'] for f in verifiers.latent(prog)))
+    r04c(ctx)
     r04d(ctx)
     r04e(ctx)
 
@@ -142,3 +148,97 @@ EXPLANATION = ("Static check inventory: for every offered verifier (functions re
                "on some path; does not decide the 2^-kappa bound nor the algebra of the equations.")
 ASSUMPTIONS = ["reference inventory (sa/rules/inventory_ref.json) was confirmed by reading the verifiers on the repaired tree",
                "equations are abstracted to relation kind + set of inputs", "arrays summarised per container"]
+
+
+# challenge sends in control-flow order; True = commitments are received before this challenge leaves.
+# Confirmed by reading each protocol: Groth's SKC, the rotation proofs and their callers open with a
+# verifier challenge (False); every cut-and-choose round and every sigma protocol challenges a
+# commitment that was received before (True).
+CHALLENGE_AFTER_COMMITMENT = {
+    'BarnettSmartVTMF_dlog::KeyGenerationProtocol_VerifyKey_interactive': [True],
+    'GrothSKC::Verify_interactive': [False, True],
+    'GrothVSSHE::Verify_interactive': [True, True],
+    'HooghSchoenmakersSkoricVillegasPUBROTZK::Verify_interactive': [False, True],
+    'HooghSchoenmakersSkoricVillegasVRHE::Verify_interactive': [False, True],
+    'SchindelhauerTMCG::TMCG_VerifyQuadraticResidue': [True],
+    'SchindelhauerTMCG::TMCG_VerifyMaskValue': [True],
+    'SchindelhauerTMCG::TMCG_VerifyStackEquality': [True],
+}
+
+
+def r04c(ctx):
+    prog = ctx.prog
+    off = prog.offered()
+    n = 0
+    seen_q = set()
+    for k, f in sorted(prog.funcs.items()):
+        if not f.get('body') or f['ret'] != 'bool' or k not in off:
+            continue
+        if 'Verify' not in f['q'].split('::')[-1]:
+            continue
+        if not any('istream' in p['t'] for p in f['params']) or not any('ostream' in p['t'] for p in f['params']):
+            continue
+        a = ctx.analysis(f)
+        T = a.T
+        pos = a._rpo_pos()
+        site_of = {r: nl[0] for nl, r in a.rand_sites.items()}
+        rcvs = [nid for nid, ev in a.all_events('rcv')]
+        sends = []
+        for nid, ev in a.all_events('snd'):
+            rands = [x for x in T.subterms(ev[2]) if T.node(x)[0] == 'rand']
+            if rands:
+                sends.append((pos.get(nid, 0), nid, ev, rands))
+        if not sends:
+            continue
+        domc = {}
+
+        def precedes(x, y):
+            """x is executed before y on every path (a loop containing x but not y counts as a unit)"""
+            if y not in domc:
+                domc[y] = set(a.dominators_of(y, limit=100000))
+            if x == y:
+                return False
+            if x in domc[y]:
+                return True
+            return any(x in b and y not in b and h in domc[y] for h, b in a.loop_nodes.items())
+        sends.sort(key=lambda s1: (sum(1 for s2 in sends if precedes(s2[1], s1[1])), s1[2][3]))
+        exp = CHALLENGE_AFTER_COMMITMENT.get(f['q'])
+        seen_q.add(f['q'])
+        if exp is None:
+            ctx.bad('R04c', 'R04c:%s:unlisted' % f['q'], 'an interactive verifier that sends random challenges is not in the confirmed table of R04c '
+                    '(new protocol: read it and list which challenges follow a commitment)', f, nec=False)
+            continue
+        for i, (_, nid, ev, rands) in enumerate(sends):
+            n += 1
+            loops = [h for h, b in a.loop_nodes.items() if nid in b]
+            prior = any(precedes(r, nid) for r in rcvs)
+            key = 'R04c:%s:challenge%d' % (f['q'], i)
+            want = exp[i] if i < len(exp) else True
+            if want and not prior:
+                ctx.bad('R04c', key + ':order', 'the random challenge sent here leaves before any commitment of the prover was received: the prover can '
+                        'choose its commitment to fit the challenge', f, line=ev[3])
+            else:
+                ctx.ok('R04c', key + ':order', 'challenge is sent after the prover\'s commitment was received' if want else
+                       'opening verifier move (no commitment precedes it by design of the protocol)', f, line=ev[3])
+            fresh = all(all(site_of[T.node(x)[1]] in a.loop_nodes[h] for h in loops) for x in rands)
+            if fresh:
+                ctx.ok('R04c', key + ':fresh', 'the challenge is drawn in the round it is sent in', f, line=ev[3])
+            else:
+                ctx.bad('R04c', key + ':fresh', 'the challenge sent in every round was drawn once outside the round loop: after the first round the '
+                        'prover knows all later challenges', f, line=ev[3])
+            for h in loops:
+                b = a.loop_bound.get(h)
+                if b is None:
+                    continue
+                tainted = T.contains(b[0], lambda nn: nn[0] == 'wire')
+                if tainted:
+                    ctx.bad('R04c', key + ':rounds', 'the number of challenge rounds is a value received from the peer', f, line=ev[3])
+                else:
+                    ctx.ok('R04c', key + ':rounds', 'the number of rounds is %s, not a value from the peer' % T.show(b[0], 2), f, line=ev[3])
+        if len(sends) != len(exp):
+            ctx.bad('R04c', 'R04c:%s:count' % f['q'], 'the verifier sends %d random challenges, the confirmed protocol has %d' % (len(sends), len(exp)), f)
+    missing = set(CHALLENGE_AFTER_COMMITMENT) - seen_q
+    if missing:
+        from ..facts import AnalysisBroken
+        raise AnalysisBroken('R04c: interactive verifier(s) vanished or no longer send a random challenge: %s' % sorted(missing))
+    ctx.floor('R04c', n, 13)
